@@ -776,13 +776,18 @@ package query
 // REPLACE: which columns are rewritten on a key match (all given columns that are not key columns), the order in
 // which unmatched rows are appended, and the reported count. The three worker closures run under Run (assumed).
 //@ func (*View).replace
-//@   property C05 C12
+//@   property C05 C12 C19
+//@   safety
 //@   requires view != nil && flags != nil && forall(r, 0, len(recordValues), len(recordValues[r]) >= len(fields))
 //@   assert after call (*query.View).convertRecordValuesToRecordSet#1: [update-columns-are-the-given-non-key-columns] forall(q, 0, len(updateIndices),
 //@       exists(j, 0, len(fieldIndices), fieldIndices[j] == updateIndices[q]) && !has(keyIndicesMap, uint(updateIndices[q])))
 //@   loop 4 invariant 0 <= $i && $i <= len(fieldIndices) && keyIndicesMap != nil && base(updateIndices) != base(fieldIndices)
 //@   loop 4 invariant forall(q, 0, len(updateIndices), exists(j, 0, $i, fieldIndices[j] == updateIndices[q]))
 //@   loop 4 invariant forall(q, 0, len(updateIndices), !has(keyIndicesMap, uint(updateIndices[q])))
+//@   loop 6 invariant 0 <= $i && $i <= len(records)
+//@   loop 6 step [unmatched-rows-appended-in-the-given-order] len(insertRecords) == old(len(insertRecords)) + ite(replacedRecord[old($i)], 0, 1) &&
+//@       (!replacedRecord[old($i)] ==> insertRecords[old(len(insertRecords))] == records[old($i)]) &&
+//@       forall(q, 0, old(len(insertRecords)), insertRecords[q] == old(insertRecords[q]))
 //@   modifies *
 
 // ---------------------------------------------------------------------------------------------
